@@ -26,8 +26,9 @@
 (* forbids: the next update then writes into the caller's object.                               *)
 EXTENDS Table, SequencesExt, FiniteSetsExt
 
-FDict(items) == [kind |-> "dict", name |-> "", items |-> items]
-FPred(n)     == [kind |-> "pred", name |-> n, items |-> <<>>]
+\* (fields in the order TLC keeps them once normalised, see MkCall in MC_IncSession.tla)
+FDict(items) == [kind |-> "dict", items |-> items, name |-> ""]
+FPred(n)     == [kind |-> "pred", items |-> <<>>, name |-> n]
 IsDict(f) == f.kind = "dict"
 IsPred(f) == f.kind = "pred"
 
